@@ -395,6 +395,14 @@ WIDE_KINDS = ("near-2^53", "near-2^63", "near-2^64", "near-2^127/128", "near-acc
               "tie+far-low-digit", "tie-far-low-digit", "300-digit", "overflow-edge", "random-wide")
 
 
+def big_below(rng, n):
+    """uniform-ish integer in [0, n) for n of any size (c.Rng yields 64 bits per draw)"""
+    acc = 0
+    for _ in range(n.bit_length() // 64 + 2):
+        acc = (acc << 64) | rng.next()
+    return acc % n
+
+
 def gen_wide_value(rng):
     """(integer, kind)"""
     k = rng.choice(WIDE_KINDS)
@@ -407,10 +415,10 @@ def gen_wide_value(rng):
         return 2 ** 64 + (small() if rng.chance(1, 2) else rng.below(8192) - 4096), k
     if k == "near-2^127/128":
         e = rng.choice([127, 128])
-        return 2 ** e + rng.choice([small(), rng.below(2 ** 76) - 2 ** 75, -(2 ** 74), 2 ** 75, 2 ** 75 + 1]), k
+        return 2 ** e + rng.choice([small(), big_below(rng, 2 ** 76) - 2 ** 75, -(2 ** 74), 2 ** 75, 2 ** 75 + 1]), k
     if k == "near-acc-capacity":        # 120..132 bits: where the first digits start to be left out of the accumulator
         e = 118 + rng.below(16)
-        return 2 ** e + rng.below(2 ** e), k
+        return 2 ** e + big_below(rng, 2 ** e), k
     if k in ("exact-tie", "tie+far-low-digit", "tie-far-low-digit"):
         m = 2 ** 52 + rng.below(2 ** 52)                        # 53 significant bits, last one either parity
         sh = rng.choice([1, 2, 3, 4, 10, 11, 12, 60, 66, 70, 71, 72, 73, 74, 75, 76, 80, 100, 200, 400, 900, 969, 970])
@@ -421,12 +429,12 @@ def gen_wide_value(rng):
             v -= 1 if rng.chance(2, 3) else (1 << rng.below(max(1, sh - 1)))
         return v, k
     if k == "300-digit":
-        nd = rng.choice([300, 300, 299, 301, 256, 257, 255, 400])
-        return rng.below(16 ** nd), k
+        nd = rng.choice([300, 60, 120, 200, 250, 255, 256, 257, 400])     # significant digits; padded to >= 300 below
+        return big_below(rng, 16 ** nd), k
     if k == "overflow-edge":                                    # MAX, the tie MAX / 2^1024 (rounds to infinity) and around
         return 2 ** 1024 - 2 ** 970 + rng.choice([0, -1, 1, -(2 ** 969), 2 ** 969, -(2 ** 970), 2 ** 970, 2 ** 971]), k
     nb = 64 + rng.below(1100)
-    return rng.below(2 ** nb), k
+    return big_below(rng, 2 ** nb), k
 
 
 def gen_wide_literal(rng):
@@ -434,8 +442,10 @@ def gen_wide_literal(rng):
     sometimes under prefix negations"""
     v, k = gen_wide_value(rng)
     v = max(v, 0)
-    if rng.chance(2, 3) or v.bit_length() > 700:
+    if rng.chance(2, 3) or v.bit_length() > 700 or k == "300-digit":
         body = "%x" % v
+        if k == "300-digit":
+            body = body.rjust(300, "0")
         if rng.chance(1, 2):
             body = "".join(ch.upper() if rng.chance(1, 2) else ch for ch in body)
         pre = "0x"
@@ -772,6 +782,7 @@ def main(argv):
     lit_hist = {}
     wide_hist = {}
     f25_hits = 0
+    f25_example = None
     over_seen = 0
     for j, ((t, cls), ro) in enumerate(zip(lits, lit_out)):
         mo = model[o1 + j]
@@ -784,8 +795,11 @@ def main(argv):
             nontrivial.add("L" + t)
         ref = py_literal_value(t)
         # the model is the one selected by the probe (pinned: i64::from_str_radix, literals >= 2^63 rejected;
-        # repaired: parse_radix_digits), so literals of the F25 class are compared like all others
-        if mo is not None and mo != "UNMODELLED" and mo != ro:
+        # repaired: parse_radix_digits), so literals of the F25 class are compared like all others; only a
+        # literal of the open class that the implementation still REJECTS is left to the known finding
+        # (a partial repair, e.g. u128::from_str_radix, is still F25 — not a new alarm, not a model mismatch)
+        still_f25 = (F25 in known and radix_over(t) and ro == "LITERR")
+        if mo is not None and mo != "UNMODELLED" and mo != ro and not still_f25:
             lit_mism.append((t, ro, mo))
         if t in WIDE_SEEN:
             wk = wide_hist.setdefault(WIDE_SEEN[t], {"texts": 0, "ge_2^63": 0, "value": 0, "infinity": 0, "rejected": 0})
@@ -798,8 +812,9 @@ def main(argv):
             continue
         if radix_over(t):
             over_seen += 1
-            if ro == "LITERR" and F25 in known and not radixfix:
+            if still_f25:
                 f25_hits += 1
+                f25_example = f25_example or t
             elif ro != hx16(ref):
                 lit_fail.append((t, ro, hx16(ref), "a hexadecimal/binary literal >= 2^63 does not denote its value "
                                                    "rounded to the nearest double"))
@@ -917,6 +932,10 @@ def main(argv):
         elif e["class"] == F25:
             o = c.harness_lines_resilient(h, "c16-lit", [c.hexs(w["text"])])[0]
             still = (o != w["expected"])
+            if not still and f25_hits:
+                res.known("%s %s (the witness no longer reproduces, but %d other literals of the class are still "
+                          "rejected, e.g. %s)" % (e["id"], e["what"], f25_hits, f25_example[:80]))
+                continue
         res.known("%s %s%s" % (e["id"], e["what"], "" if still else " (no longer reproduces)"))
 
     n_f = sum(1 for b in xs if is_finite_bits(b))
